@@ -305,13 +305,14 @@ pub(crate) async fn process_socket_command(
 
     #[cfg(feature = "io-uring")]
     Command::UringFdError { endpoint_uri, error } => {
-      let (conn_iface_opt, synthetic_read_id_opt, handle_id_opt) = {
+      let (conn_iface_opt, synthetic_read_id_opt, handle_id_opt, reconnect_target_opt) = {
         let cs = core_arc.core_state.read();
         let ep = cs.endpoints.get(&endpoint_uri);
         (
           ep.map(|e| e.connection_iface.clone()),
           ep.and_then(|e| e.pipe_ids.map(|pids| pids.1)),
           ep.map(|e| e.handle_id),
+          ep.and_then(|e| e.target_endpoint_uri.clone()),
         )
       };
       tracing::warn!(handle=core_handle, %endpoint_uri, %error, "UringFdError — closing connection.");
@@ -324,7 +325,7 @@ pub(crate) async fn process_socket_command(
       if let Some(s_read_id) = synthetic_read_id_opt {
         socket_logic_strong.pipe_detached(s_read_id).await;
       }
-      pipe_manager::cleanup_stopped_child_resources(
+      let should_consider_reconnect = pipe_manager::cleanup_stopped_child_resources(
         core_arc.clone(),
         socket_logic_strong,
         handle_id_opt.unwrap_or(0),
@@ -334,6 +335,18 @@ pub(crate) async fn process_socket_command(
         current_shutdown_phase != ShutdownPhase::Running,
       )
       .await;
+      // Same passive back-off as for a session actor that stopped (handle_actor_stopping_event):
+      // the command loop picks the entry up and respawns the connecter.
+      if should_consider_reconnect && current_shutdown_phase == ShutdownPhase::Running {
+        if let Some(target_uri) = reconnect_target_opt {
+          let mut state = core_arc.core_state.write();
+          let base = state.options.reconnect_ivl.unwrap_or(std::time::Duration::from_millis(100));
+          let max = state.options.reconnect_ivl_max.unwrap_or(std::time::Duration::from_secs(60));
+          let recon_state = state.reconnect_states.entry(target_uri.clone()).or_default();
+          let delay = recon_state.on_connection_failure(base, max);
+          tracing::info!(handle=core_handle, uri=%target_uri, next_attempt_in=?delay, "io_uring connection lost. Scheduled for reconnect via passive backoff.");
+        }
+      }
     }
 
     Command::NewConnectionEstablished {
